@@ -67,7 +67,7 @@ def subset_render(g, ir, split, rnd):
     return pieces, top
 
 
-def run_ops(fa, schema, datum, seed, parsed_identity=None):
+def run_ops(fa, schema, datum, seed, parsed_identity=None, defaulted=()):
     from fastavro import json_reader, json_writer
     from fastavro.schema import to_parsing_canonical_form
     from fastavro.utils import generate_many
@@ -104,6 +104,14 @@ def run_ops(fa, schema, datum, seed, parsed_identity=None):
         return {"docs": [proj.pj(json.loads(l)) for l in text.split("\n")] if text else [], "text": proj.cps(text)}
     attempt("json", wjson)
     attempt("jsonread", lambda: {"recs": [proj.pv(r) for r in json_reader(io.StringIO(proj.uncps(out["json"]["text"])), schema)]} if out["json"]["ok"] else 1 / 0)
+
+    def jdrop():
+        # fields absent from the JSON text take the defaults of the schema
+        text = proj.uncps(out["json"]["text"])
+        t2 = "\n".join(json.dumps({k: v for k, v in json.loads(l).items() if k not in defaulted}) for l in text.split("\n"))
+        return {"recs": [proj.pv(r) for r in json_reader(io.StringIO(t2), schema)]}
+    if defaulted:
+        attempt("jsondrop", jdrop if out["json"]["ok"] else lambda: 1 / 0)
     attempt("validate", lambda: {"v": proj.pv(validate(datum, schema, raise_errors=False))})
     attempt("canon", lambda: {"text": proj.cps(to_parsing_canonical_form(schema))})
 
@@ -143,8 +151,13 @@ def forms_case(fa, cid, g, ir, rnd):
             c["dict_after"] = [proj.cps(k) for k in shared]
         except Exception as e:  # noqa: BLE001 - the pieces are valid by construction (TLC re-checks via the monolithic schema)
             c["piecewise_error"] = proj.cps(repr(e)[:200])
+    defaulted = [f["name"] for f in ir["fields"] if f["hasdef"] and not p_json.contains_record(f["type"], g)] if ir["k"] == "record" else []
+    if defaulted and isinstance(datum, dict):
+        c["dropped"] = proj.pv({k: v for k, v in datum.items() if k not in defaulted})
+    else:
+        defaulted = []
     for name, sch in forms:
-        ops = run_ops(fa, sch, datum, seed)
+        ops = run_ops(fa, sch, datum, seed, defaulted=defaulted)
         ops["form"] = name
         again = fa.parse_schema(sch) if name == "parsed" else None
         # "returns it unchanged": the same object for records (which carry the parsed marker), an equal schema otherwise
